@@ -106,6 +106,11 @@ Theorem C02_gate_ignored : forall (F : funs) (var : variant) (p : prior R) (u : 
   exists v, value_for_R F var p true u = Ok v.
 Proof. exact gate_ignored_b. Qed.
 
+(* the gate only filters (current code, any number type incl. binary64): enforcing the limits never changes a value *)
+Theorem C02_gate_transparent : forall (N : Type) (A : Arith N) (S : Special N) (p : prior N) (u v : N),
+  prior_value_for A S Current p false u = Ok v -> prior_value_for A S Current p true u = Ok v.
+Proof. exact @gate_transparent. Qed.
+
 (* UniformPrior: FULL statement "a returned value lies within the limits" over exact rationals with the exact
    decimal rounding: refuted for the current code, proved under the guard, proved for the repair *)
 Theorem C02_uniform_within_limits_refuted : ~ uniform_within_limits Current.
